@@ -55,7 +55,8 @@ IDIOMS = {
     "nonlocal-as-state": "the enclosing function's locals that a nested function declares `nonlocal` (spec: nonlocal_state) are fields of an explicit state record: read from it on entry, ordinary locals inside, packed into a new record at every exit; the function is params -> state -> (value * state). Aliasing of those locals is not modelled",
     "if-boolop-split": "`if a or b: S else: T` is `if a: S else: (if b: S else: T)` and `if a and b: S else: T` is `if a: (if b: S else: T) else: T` (exact, by short-circuit evaluation); applied only when an operand is `X is None` / `X is not None` on an Optional name or self attribute chain, so that the later operands and the branches read the payload (narrowing-by-match)",
     "noop-call-by-spec": "an expression statement calling a function the spec lists under noop_calls (logging) is skipped and its arguments are NOT evaluated: assumed effect free and non-raising",
-    "fragment-as-function": "spec 'fragment': a prefix of the statements of one block of a function (addressed by a path of loop statements, ending before the first statement that contains break/continue/return) is translated as a function of the enclosing locals listed as parameters, returning the listed output locals; every other local it assigns must be declared a temp and is checked not to be read outside the fragment. That the block runs where the model says is NOT covered by the link",
+    "fragment-as-function": "spec 'fragment': a prefix of the statements of one block of a function (addressed by a path of loop statements, optionally starting behind the unique statement of a given type; ending before the first statement that contains break/continue/return, or after a given number of statements) is translated as a function of the enclosing locals listed as parameters, returning the listed output locals; every other local it assigns must be declared a temp and is checked not to be read outside the fragment. That the block runs where the model says is NOT covered by the link",
+    "frozen-setattr": "`object.__setattr__(self, \"a\", e)` in the constructor (__post_init__) of a frozen dataclass is `self.a = e` on a state field (the frozen class only blocks the plain assignment syntax)",
 }
 
 KEYWORDS = set("at as end in fun let match with if then else for forall exists return using where Set Prop Type fix cofix struct do "
@@ -570,6 +571,14 @@ class FunctionTranslator:
         t = vs[0].ty
         vs = [self.coerce(v, t, node) for v in vs]
         return Val("[" + "; ".join(v.code for v in vs) + "]", List(t))
+
+    def e_Dict(self, node, env):
+        """only the empty literal `{}` assigned to a local whose dict type the spec declares ('locals')"""
+        want = getattr(self, "hint", None)
+        if node.keys or want is None or want.kind != "dict":
+            self.bad(node, "dict literal: only `{}` assigned to a local declared as a dict in the spec ('locals') is in the subset")
+        self.idiom("dict-as-assoc-list")
+        return Val(f"([] : {g_type(want)})", want)
 
     def e_Subscript(self, node, env):
         base = self.expr(node.value, env)
@@ -1204,6 +1213,22 @@ class StatementsMixin:
                 return self.block(rest, env, k)
             if f.attr in ("append", "add") and len(v.args) == 1 and not v.keywords:
                 return self.mutate(s, f.value, f.attr, v.args[0], rest, env, k)
+            if (f.attr == "__setattr__" and isinstance(f.value, ast.Name) and f.value.id == "object" and len(v.args) == 3 and not v.keywords
+                    and isinstance(v.args[0], ast.Name) and v.args[0].id == "self" and isinstance(v.args[1], ast.Constant) and isinstance(v.args[1].value, str)):
+                # object.__setattr__(self, "a", e) in the __post_init__ of a frozen dataclass: self.a = e on a state field
+                a = v.args[1].value
+                field_ = [fl for fl in (self.state["fields"] if self.state else []) if fl[0] == a]
+                if self.kind != "init" or not field_:
+                    self.bad(s, f"object.__setattr__(self, {a!r}, ...) outside a constructor (kind='init') / not a state field of the spec")
+                self.idiom("frozen-setattr")
+                def go_set():
+                    v2 = self.coerce(self.expr(v.args[2], env), field_[0][2], s)
+                    env2 = env.copy()
+                    g = self.gname("f" + a)
+                    env2.vars["self." + a] = Val(g, field_[0][2])
+                    self.init_fields[a] = Val(g, field_[0][2])
+                    return [f"let {g} := {v2.code} in"], env2
+                return self.simple(go_set, rest, env, k)
         if isinstance(v, ast.Call):
             def go():
                 r = self.expr(v, env)
@@ -1336,12 +1361,20 @@ class StatementsMixin:
             return self.assign_to(target.value, nd, env, s)
         self.bad(s, "assignment target outside the subset")
 
+    def state_field_hint(self, target):
+        """the declared type of the state field `self.f` an assignment goes to (so that `self.f = {}` knows its dict type)"""
+        if isinstance(target, ast.Attribute) and self.is_self(target.value) and self.state:
+            for (attr, _, ty) in self.state["fields"]:
+                if attr == target.attr:
+                    return ty
+        return None
+
     def s_Assign(self, s, rest, env, k):
         if len(s.targets) != 1:
             self.bad(s, "chained assignment")
         def go():
             t0 = s.targets[0]
-            self.hint = self.fs.get("locals", {}).get(t0.id) if isinstance(t0, ast.Name) else None
+            self.hint = self.fs.get("locals", {}).get(t0.id) if isinstance(t0, ast.Name) else self.state_field_hint(t0)
             try:
                 v = self.expr(s.value, env)
             finally:
@@ -1353,7 +1386,7 @@ class StatementsMixin:
         if s.value is None:
             return self.block(rest, env, k)  # a bare annotation
         def go():
-            self.hint = self.fs.get("locals", {}).get(s.target.id) if isinstance(s.target, ast.Name) else None
+            self.hint = self.fs.get("locals", {}).get(s.target.id) if isinstance(s.target, ast.Name) else self.state_field_hint(s.target)
             try:
                 v = self.expr(s.value, env)
             finally:
@@ -1824,14 +1857,23 @@ class ModuleTranslator:
             if (not idx and len(found) != 1) or (idx and int(idx) >= len(found)):
                 raise Untranslatable(fnode, f"fragment of {fs['py']}: expected {'exactly one' if not idx else 'more than ' + idx} {kind} statement(s) in the block, found {len(found)}")
             block = found[int(idx) if idx else 0].body
+        if fr.get("after"):
+            # start behind the unique statement of this type in the addressed block (e.g. after the main `While`)
+            at = [i for i, n in enumerate(block) if type(n).__name__ == fr["after"]]
+            if len(at) != 1:
+                raise Untranslatable(fnode, f"fragment of {fs['py']}: expected exactly one {fr['after']} statement to start after, found {len(at)}")
+            block = block[at[0] + 1:]
         stmts, closed = [], False
         for st in block:
-            if any(isinstance(n, (ast.Break, ast.Continue, ast.Return, ast.Yield, ast.YieldFrom)) for n in ast.walk(st)):
+            if fr.get("count") is not None and len(stmts) == fr["count"]:
                 closed = True
+                break
+            if any(isinstance(n, (ast.Break, ast.Continue, ast.Return, ast.Yield, ast.YieldFrom)) for n in ast.walk(st)):
+                closed = fr.get("count") is None
                 break
             stmts.append(st)
         if not stmts or not closed:
-            raise Untranslatable(fnode, f"fragment of {fs['py']}: no statement followed by a break/continue/return statement in the addressed block")
+            raise Untranslatable(fnode, f"fragment of {fs['py']}: the addressed block does not have " + (f"{fr['count']} statements free of break/continue/return followed by another statement" if fr.get("count") is not None else "a statement followed by a break/continue/return statement"))
         outputs, temps = list(fr["outputs"]), list(fr.get("temps", []))
         inside = {id(n) for st in stmts for n in ast.walk(st)}
         for n in assigned_names(stmts):
@@ -1842,7 +1884,7 @@ class ModuleTranslator:
                 raise Untranslatable(n, f"fragment of {fs['py']}: temp {n.id!r} is read outside the fragment")
         last = stmts[-1]
         names = [ast.copy_location(ast.Name(o, ast.Load()), last) for o in outputs]
-        ret = ast.copy_location(ast.Return(names[0] if len(names) == 1 else ast.copy_location(ast.Tuple(names, ast.Load()), last)), last)
+        ret = ast.copy_location(ast.Return(None if not names else names[0] if len(names) == 1 else ast.copy_location(ast.Tuple(names, ast.Load()), last)), last)
         args = ast.arguments(posonlyargs=[], args=[ast.arg(p[0]) for p in fs.get("params", [])], vararg=None, kwonlyargs=[], kw_defaults=[], kwarg=None, defaults=[])
         fn = ast.FunctionDef(fs["gen"], args, stmts + [ret], [], None)
         fn.lineno, fn.end_lineno, fn.col_offset, fn.end_col_offset = stmts[0].lineno, last.end_lineno, stmts[0].col_offset, last.end_col_offset
